@@ -574,6 +574,7 @@ pub static IS_ASYNC: std::sync::atomic::AtomicBool = std::sync::atomic::AtomicBo
 /// the insert buffer is roomy enough for `remove()` (which unwraps try_remove's full-buffer error)
 pub static PLAIN_REMOVE_OK: std::sync::atomic::AtomicBool = std::sync::atomic::AtomicBool::new(false);
 static REMOVE_CALLS: std::sync::atomic::AtomicU64 = std::sync::atomic::AtomicU64::new(0);
+static REF_CALLS: std::sync::atomic::AtomicU64 = std::sync::atomic::AtomicU64::new(0);
 
 /// Drive a future on the executor of this run's flavour.
 thread_local! {
@@ -651,17 +652,59 @@ mod sync_impl {
         }
         fn get(&self, k: u64, hold: u32) -> Option<(Val, Val, u64)> {
             let r = SelfTy::get(self, &k)?;
-            let first = *r.value();
+            // every way of reading through the reference is used in turn
+            let sel = REF_CALLS.fetch_add(1, Ordering::SeqCst) % 4;
+            let first = match sel {
+                0 => *r.value(),
+                1 => *r.as_ref(),
+                2 => *r.value(),
+                _ => {
+                    // Debug goes through the value as well
+                    let v = *r.value();
+                    if format!("{:?}", r) != format!("{:?}", v) {
+                        Val { id: 0, key: v.key, size: v.size }
+                    } else {
+                        v
+                    }
+                }
+            };
             let ttl = dur_ns(r.ttl());
             hold_points(hold);
-            let last = *r.value();
-            r.release();
+            let last = match sel {
+                2 => r.read(), // consumes and releases
+                1 => {
+                    let v = *r.as_ref();
+                    drop(r);
+                    v
+                }
+                _ => {
+                    let v = *r.value();
+                    r.release();
+                    v
+                }
+            };
             Some((first, last, ttl))
         }
         fn get_mut(&self, k: u64, write: Option<Val>, hold: u32) -> Option<(Val, Val)> {
             let mut r = SelfTy::get_mut(self, &k)?;
-            let prev = *r.value();
+            let gsel = REF_CALLS.fetch_add(1, Ordering::SeqCst) % 3;
+            let prev = match gsel {
+                0 => *r.value(),
+                1 => *r.as_ref(),
+                _ => r.clone_inner(),
+            };
             hold_points(hold);
+            if let (Some(w), 0, 1) = (write, hold, gsel) {
+                // write_once: writes, consumes and releases
+                r.write_once(w);
+                return Some((prev, w));
+            }
+            if let (Some(w), 0, 2) = (write, hold, gsel) {
+                *r.as_mut() = w;
+                let left = *r.as_ref();
+                drop(r);
+                return Some((prev, left));
+            }
             if let Some(w) = write {
                 if hold > 0 {
                     // a multi-step in-place update, as a client with a larger value would
@@ -731,17 +774,59 @@ mod async_impl {
         }
         fn get(&self, k: u64, hold: u32) -> Option<(Val, Val, u64)> {
             let r = bo(SelfTy::get(self, &k))?;
-            let first = *r.value();
+            // every way of reading through the reference is used in turn
+            let sel = REF_CALLS.fetch_add(1, Ordering::SeqCst) % 4;
+            let first = match sel {
+                0 => *r.value(),
+                1 => *r.as_ref(),
+                2 => *r.value(),
+                _ => {
+                    // Debug goes through the value as well
+                    let v = *r.value();
+                    if format!("{:?}", r) != format!("{:?}", v) {
+                        Val { id: 0, key: v.key, size: v.size }
+                    } else {
+                        v
+                    }
+                }
+            };
             let ttl = dur_ns(r.ttl());
             hold_points(hold);
-            let last = *r.value();
-            r.release();
+            let last = match sel {
+                2 => r.read(), // consumes and releases
+                1 => {
+                    let v = *r.as_ref();
+                    drop(r);
+                    v
+                }
+                _ => {
+                    let v = *r.value();
+                    r.release();
+                    v
+                }
+            };
             Some((first, last, ttl))
         }
         fn get_mut(&self, k: u64, write: Option<Val>, hold: u32) -> Option<(Val, Val)> {
             let mut r = bo(SelfTy::get_mut(self, &k))?;
-            let prev = *r.value();
+            let gsel = REF_CALLS.fetch_add(1, Ordering::SeqCst) % 3;
+            let prev = match gsel {
+                0 => *r.value(),
+                1 => *r.as_ref(),
+                _ => r.clone_inner(),
+            };
             hold_points(hold);
+            if let (Some(w), 0, 1) = (write, hold, gsel) {
+                // write_once: writes, consumes and releases
+                r.write_once(w);
+                return Some((prev, w));
+            }
+            if let (Some(w), 0, 2) = (write, hold, gsel) {
+                *r.as_mut() = w;
+                let left = *r.as_ref();
+                drop(r);
+                return Some((prev, left));
+            }
             if let Some(w) = write {
                 if hold > 0 {
                     // a multi-step in-place update, as a client with a larger value would
@@ -1084,6 +1169,7 @@ pub fn build(cfg: &Cfg) -> Result<Box<dyn Api>, String> {
     IS_ASYNC.store(cfg.flavor != Flavor::Sync, Ordering::SeqCst);
     PLAIN_REMOVE_OK.store(cfg.buffer_size >= 32, Ordering::SeqCst);
     REMOVE_CALLS.store(0, Ordering::SeqCst);
+    REF_CALLS.store(0, Ordering::SeqCst);
     DECOY_N.store(0, Ordering::SeqCst);
     *DECOY.lock().unwrap_or_else(|e| e.into_inner()) = None;
     let main: Result<Box<dyn Api>, String> = match cfg.flavor {
